@@ -52,6 +52,29 @@ CHECKS: dict[str, dict] = {
         "with a Pillow BOX reference - no judgement); JPEG payloads are only required to decode to the "
         "right mode and dimensions.",
     ),
+    "C04": dict(
+        technique="integer-only TLA+ relation SizeRel + exact-rational transcription Algo (Sizing.tla): TLC checks "
+        "Algo => SizeRel on the grid and the size-history machine; history edges replayed into real image "
+        "objects; millions of real set_size/size=/rendered_size/rows() results judged by TLC against SizeRel",
+        text="The property is a tolerance relation evaluated in exact integer arithmetic by TLC: on the model of the "
+        "algorithm for every original/terminal/cell-size/ratio/frame/mode combination of the grid, and on "
+        "the results of the real code for the same grid and for seeded large inputs; fixed-vs-dynamic size "
+        "histories (set_size, resize, set_cell_ratio, render) are explored exhaustively and replayed.",
+        design_ref="DESIGN.md 3 C04, notes/C04.md",
+        level_note="Trusted base: TLC. The float arithmetic of _valid_size is not modelled bit for bit: the property "
+        "is the relation, checked as such.",
+    ),
+    "C05": dict(
+        technique="Padding.tla (dimension algebra, exhaustive) replayed into the real padding classes and the old-API "
+        "argument rules; padded outputs of real code judged by TLC on two Terminal.tla instances "
+        "(Trace_Pad.tla: inner render vs padded output)",
+        text="TLC enumerates every padding x render size x terminal size within bounds and checks the size/offset "
+        "laws; every table entry is replayed into resolve/get_padded_size/to_exact/_get_exact_dimensions_/"
+        "_check_formatting; the outputs of Padding.pad, Renderable.render/draw, RenderIterator frames, "
+        "format(image) and BaseImage.draw are interpreted by the terminal model and must contain the inner "
+        "render unchanged at the dictated offset inside exactly the padded box.",
+        design_ref="DESIGN.md 3 C05, notes/C05.md",
+    ),
     "C06": dict(
         technique="Terminal.tla in absolute line coordinates + TLC trace validation of the bytes real draw() "
         "calls deliver (both APIs); DrawValidate.tla table replayed into the real draw()",
